@@ -650,6 +650,10 @@ def c15_cases(tier, seed):
     base = gens.g_cst(seed, 150 if q else 1500, flags="", renderings=1, hoist=True, size=8)
     base += gens.g_tokens(2, flags="")
     base += gens.g_ent_fanout([1, 2, 3, 5], [1, 2, 3]) + gens.g_ent_random(seed, 100 if q else 1000)
+    # documents whose UNLIMITED parse fails on the expansion limits (an error must persist under every limit), and their accepted neighbours
+    base += gens.g_ent_fanout([16, 255, 256], [1, 2]) + gens.g_ent_fanout([2], [9, 10, 11]) + gens.g_ent_cycles(3)
+    base.append(Case(gens.ent_doc([("a", "<i/>"), ("b", "&a;" * 256)], "<r>&b;</r>"), "", True, meta={"gen": "ent-256-elements"}))
+    base.append(Case(gens.ent_doc([("a", "<i/>"), ("b", "&a;" * 255)], "<r>&b;</r>"), "", True, meta={"gen": "ent-255-elements"}))
     base += gens.g_mutations(seed, 150 if q else 1500)
     # entity expansion multiplying element / comment / text nodes
     for k in (1, 2, 3, 8, 20):
@@ -923,6 +927,20 @@ def c20_extra(tier, seed, harness_rel, harness_dbg):
     if p.returncode != 0:
         fails.append({"why": "threads mode exited with %d" % p.returncode})
     info.append({"thread_dumps_equal": same, "thread_dumps_different": diff})
+    # reads must not depend on hidden state either: the LB probe of the lookup battery (same query through an overwritten
+    # buffer, reverse pass, alternating far-apart nodes) on the same documents and on a document with more than 2^16 nodes
+    # node ids i and i + 65536 (and i + 256) lie under different default namespaces
+    big = Case("<r xmlns='urn:outer' xmlns:p='urn:p'>" + "<c/>" * 254 + "<m xmlns='urn:mid'>" + "<c/>" * 300 + "</m>" + "<c/>" * (65535 - 254 - 301) + "<d xmlns='urn:inner'>" + "<e/>" * 200 + "<p:e p:b='2'/></d></r>", "l", True, meta={"gen": "hidden-state-65536"})
+    probe = [Case(c.data, "l", True, meta=c.meta) for c in cs] + [big]
+    res = rxlib.run_sharded(harness_rel, ["dump"], probe, work, "probe")
+    bad = 0
+    for i, c in enumerate(probe):
+        r = oracles.o_lookups(c, res[i]) if rxlib.result_class(res[i]) == "ok" else None
+        if r:
+            bad += 1
+            if bad <= 2:
+                fails.append({"why": r, "case": c.describe() if len(c.data) < 5000 else {"gen": "hidden-state-65536"}})
+    info.append({"hidden_state_probe_documents": len(probe), "anomalous": bad})
     # auto traits, decided by rustc: a separate binary whose compilation is the obligation
     env2 = dict(rxlib.ENV)
     rc, o = rxlib.run(["cargo", "run", "--offline", "--release", "--bin", "autotraits", "--target-dir", os.path.join(rxlib.HARNESS, "target")], cwd=rxlib.HARNESS, env=env2)
@@ -954,7 +972,8 @@ def c19_corpus(tier, seed):
     q = tier == "quick"
     return gens.g_cst(seed, 300 if q else 3000, flags="nc", renderings=2, hoist=True) + gens.g_fixtures(flags="nc", benches=not q) + \
         gens.g_tokens(2, flags="nc") + gens.g_mutations(seed, 500 if q else 5000, flags="nc") + gens.g_meta(2, flags="nc") + \
-        gens.g_ent_random(seed, 200 if q else 2000, flags="nc") + gens.g_long(flags="nc", counts=[2, 17, 33])
+        gens.g_ent_random(seed, 200 if q else 2000, flags="nc") + gens.g_long(flags="nc", counts=[2, 17, 33, 34, 65]) + \
+        [Case("<a xmlns:xml='http://www.w3.org/XML/1998/namespace' xmlns:xml='http://www.w3.org/XML/1998/namespace'/>", "nc", True, meta={"gen": "d21"})]
 
 
 def c19_extra(tier, seed, harness_rel, harness_dbg):
@@ -1038,7 +1057,7 @@ defprop("C10", "proof", None, c10_cases, oracle=oracles.o_total, extra=c10_extra
 defprop("C11", "proof", {"R", "N", "AX", "AE", "AH", "AT", "AR", "D"}, lambda t, s: api_docs(t, s, "ncad"), oracle=all_oracles(oracles.o_wf_tree, oracles.o_navigation),
         rule="every node of enumerated token-string documents, random documents and fixtures x every axis, element variant, text/tail, and every F/B word <= 4 plus nth/len scripts on the four double-ended iterators",
         technique="Coq proof that the iterator state machines implement the deque specification + correspondence")
-defprop("C12", "proof", {"R", "L", "LQ"}, lambda t, s: api_docs(t, s, "ncl"), oracle=oracles.o_lookups,
+defprop("C12", "proof", {"R", "L", "LQ", "LB"}, lambda t, s: api_docs(t, s, "ncl"), oracle=oracles.o_lookups,
         rule="every node x query names {present pairs, same local with no / other / empty namespace, absent, reserved URIs}, prefixes and URIs in scope, attribute equality matrix",
         technique="Coq proof of the lookup functions against enumeration + correspondence")
 defprop("C13", "proof", {"R", "P", "PA"}, c13_cases_with_shift, oracle=oracles.o_ranges, relation=c13_relation,
